@@ -2479,6 +2479,13 @@ class Walker:
                 fi = self.repo.method(rcls, meth)
                 if fi is not None and self.inline(fi) and len(self.fnstack) <= self.max_depth and fi not in self.fnstack:
                     return self.inline_call(fi, recv, args, kwargs, e)
+            elif self._is_node_term(recv) and self.repo.has_class("Node") and meth in self.repo.find_class("Node").methods \
+                    and api_signature(self.repo.find_class("Node").methods[meth]) is None and not meth.startswith("__") \
+                    and not self.repo.find_class("Node").methods[meth].decorators:
+                # a helper method added to Node, called on a node of a graph: its body
+                nfi = self.repo.find_class("Node").methods[meth]
+                if self.inline(nfi) and len(self.fnstack) <= self.max_depth and nfi not in self.fnstack:
+                    return self.inline_call(nfi, recv, args, kwargs, e)
             elif recv[0] == "attr" and recv[2] == "subgraph":
                 # a method of the training graph that the documented API does not have (a helper added next to
                 # create_arcs & co.): when its name is unique among the graph classes, the call is its body
@@ -2565,6 +2572,18 @@ class Walker:
             if target in ("numpy",):
                 return ("mod", f"numpy.{node.attr}")
         raise AnalysisError("class constant outside the literal fragment")
+
+    @staticmethod
+    def _is_node_term(t: Term) -> bool:
+        """nodes[i] / an element of a loop over .nodes (of self or of a subgraph field)."""
+        if t[0] == "idx" and t[1][0] == "attr" and t[1][2] == "nodes":
+            return True
+        if t[0] == "iter" and t[1][0] == "attr" and t[1][2] == "nodes":
+            return True
+        if t[0] == "iterproj" and t[1][0] == "call" and t[1][1] == ("builtin", "enumerate") and t[3] == (1,) \
+                and t[1][2] and t[1][2][0][0] == "attr" and t[1][2][0][2] == "nodes":
+            return True
+        return False
 
     def _k_value(self, a: Term, b: Term):
         k, cst = (a, b) if a[0] == "K" else (b, a)
